@@ -59,8 +59,25 @@ BUILDER_NAMES = {"__init__", "__setkey__", "__setattr__", "__getattr__", "__geti
 CREATING = {"__getattr__", "__getitem__", "__setitem__", "_add_field", "__setattr__"}
 
 
-def is_builder(an, fn) -> bool:
-    """constructor / schema-construction protocol / decorator helpers"""
+_BUILDER_CACHE = {}
+
+
+def is_builder(an, fn, _stack=()) -> bool:
+    """constructor / schema-construction protocol / decorator helpers, and private helpers that are
+    reachable only from those"""
+    key = (id(an), id(fn))
+    if key in _BUILDER_CACHE:
+        return _BUILDER_CACHE[key]
+    r = _is_builder_by_name(an, fn)
+    if not r and fn not in _stack and fn.name.startswith("_") and not (fn.name.startswith("__") and fn.name.endswith("__")):
+        callers = an.callers(fn)
+        if callers and all(is_builder(an, cf, _stack + (fn,)) for cf, _ in callers):
+            r = True
+    _BUILDER_CACHE[key] = r
+    return r
+
+
+def _is_builder_by_name(an, fn) -> bool:
     model = an.model
     Base = model.cls("BaseField")
     top = fn
@@ -216,7 +233,7 @@ def check(ctx):
                 is_config = ot != "ANY" and any(isinstance(a, str) and a in model.classes and model.classes[a].is_subclass_of(Config) for a in ot)
                 nmut += 1
                 if is_schema or ot == "ANY":
-                    ok = fn.cls is Schema and fn.name in ("_add_field", "__init__")
+                    ok = fn.cls is Schema and (fn.name in ("_add_field", "__init__") or is_builder(an, fn))
                     ctx.ob("schema-fields.single-owner", fn, n.ast, ok,
                            "the schema's field table is written by its constructor / _add_field" if ok else
                            "%s mutates a schema's field table (%s): the change is visible to every configuration of the schema" % (fn.qualname, op), node=n)
